@@ -275,17 +275,23 @@ def trace_verdicts(prop, rep, traces, acc, rej):
 
 # ------------------------------------------------------------------------------------------------ C09
 
-def expected(df, st, t):
+def nil_safe(cfg):
+    """ValidatorNilSafe of a cfg: FALSE while the code dereferences null / keyless verification methods (repaired by 875b84f)"""
+    txt = open(os.path.join(vlib.SPEC, "cfg", cfg)).read()
+    return re.search(r"ValidatorNilSafe = (\w+)", txt).group(1) == "TRUE"
+
+
+def expected(df, st, t, nilsafe=True):
     if not st["sigok"][t]:
         return "rejected"
-    if df in PANIC:
+    if df in PANIC and not nilsafe:
         return "panic"
     if df in LAX:
         return st["verdicts"][t]
     return "rejected"
 
 
-def amb_scripts(states, prefix, defects, carriers, n_states, n_defect_probes, rnd):
+def amb_scripts(states, prefix, defects, carriers, n_states, n_defect_probes, rnd, nilsafe=True):
     states = sorted(states, key=lambda s: json.dumps(s["path"], sort_keys=True))
     if n_states and len(states) > n_states:
         # keep the shortest and the longest paths, sample the rest
@@ -301,7 +307,7 @@ def amb_scripts(states, prefix, defects, carriers, n_states, n_defect_probes, rn
         chosen = [pairs[(i * n_defect_probes + j) % len(pairs)] for j in range(n_defect_probes)] if pairs else []
         for c, df in chosen:
             if c in st["verdicts"]:
-                probes.append(dict(t=c, df=df, res=expected(df, st, c), auth=st["authorised"][c]))
+                probes.append(dict(t=c, df=df, res=expected(df, st, c, nilsafe), auth=st["authorised"][c]))
         rnd.shuffle(probes)
         scripts.append(dict(id="%s%05d" % (prefix, i), steps=st["path"], probes=probes))
     return scripts
@@ -374,7 +380,7 @@ def run_amb(prop, tier, seed, rep, t0):
         sts = [s for s in sts if isinstance(s, dict) and "path" in s]
         n_states_total += len(sts)
         models.append(model_entry(cfg, g, note="one witness path per distinct state + verdict table"))
-        scripts = amb_scripts(sts, prefix, defects_of(cfg), carriers, n_states, n_def, rnd)
+        scripts = amb_scripts(sts, prefix, defects_of(cfg), carriers, n_states, n_def, rnd, nil_safe(cfg))
         base_input = dict(mode="ambassador", tables=tables, k=1, dids=dids)
         base_inputs[prefix] = base_input
         rs = vlib.run_driver_parallel(binary, dict(base_input, scripts=scripts), shards=SHARDS, timeout=1500)
